@@ -165,7 +165,10 @@ func (p *parser) ParseFile() (prog *ast.File, err error) {
 				prog = p.prog
 				err = errx
 			} else {
-				panic(r)
+				// the parser validates its input with assert and unchecked type assertions:
+				// a failed one is an error in the source text at the current token, not a crash
+				prog = p.prog
+				err = &parserError{pos: p.fset.Position(p.pos), msg: fmt.Sprint(r)}
 			}
 		}
 	}()
